@@ -1874,6 +1874,9 @@ class UserSpaceImpl(*_user_space_impl_base):
                 selfkeys.remove(name)
 
             if selfdict[name].is_derived():
+                if attr == "cells":
+                    # ItemSpaces hold a copy of the re-derived cells
+                    self.clear_subs_rootitems()
                 selfdict[name].on_inherit(updater, bs)
 
         for name in selfkeys:
